@@ -48,3 +48,56 @@ pub fn any_len(max: usize) -> usize {
     kani::assume(n <= max);
     n
 }
+
+/// Fixed-capacity key buffer implementing the crate's public `KeyBuffer` trait, so that the
+/// generic encoders are instantiated without heap allocation (instantiation stated in evidence;
+/// selected harnesses also run the `Vec<u8>` instantiation the database itself uses).
+pub struct FixBuf<const N: usize> {
+    pub b: [u8; N],
+    pub n: usize,
+}
+impl<const N: usize> FixBuf<N> {
+    pub fn new() -> Self {
+        FixBuf { b: [0u8; N], n: 0 }
+    }
+    pub fn as_slice(&self) -> &[u8] {
+        &self.b[..self.n]
+    }
+}
+impl<const N: usize> turdb::encoding::key::KeyBuffer for FixBuf<N> {
+    fn push(&mut self, byte: u8) {
+        self.b[self.n] = byte;
+        self.n += 1;
+    }
+    fn extend_from_slice(&mut self, bytes: &[u8]) {
+        let mut i = 0;
+        while i < bytes.len() {
+            self.b[self.n] = bytes[i];
+            self.n += 1;
+            i += 1;
+        }
+    }
+}
+
+/// Lexicographic byte comparison (memcmp semantics), written as an explicit loop so that the
+/// unwinding bound is visible: needs unwind >= min(len)+2.
+pub fn lex_cmp(a: &[u8], b: &[u8]) -> core::cmp::Ordering {
+    use core::cmp::Ordering::*;
+    let mut i = 0;
+    while i < a.len() && i < b.len() {
+        if a[i] < b[i] {
+            return Less;
+        }
+        if a[i] > b[i] {
+            return Greater;
+        }
+        i += 1;
+    }
+    if a.len() < b.len() {
+        Less
+    } else if a.len() > b.len() {
+        Greater
+    } else {
+        Equal
+    }
+}
